@@ -237,4 +237,14 @@ Definition spec_step_ok (pre : pool) (op : wop) (r : res wout) (ws : list warnin
       | Ok (WRows l) => match reasons with [] => rows_eqb l (firstn (Z.to_nat c) (skipn (Z.to_nat s) (view o))) | _ => false end
       | Ok WNone => false
       end
+  | PRepickle i =>
+      (* a pickled / deep copy: the same samples, timing, scale and properties, in a buffer of its own that has neither
+         offset nor slack and can grow; nothing else in the pool changes *)
+      let o := pget pre i in let o' := pget post i in
+      match r with
+      | Ok _ => others_unchanged i pre post && meta_same o o' && Nat.eqb (o_count o') (o_count o) && rows_eqb (view o') (view o)
+                && timing_same (o_timing o) (o_timing o') && props_same (o_props o) (o_props o')
+                && Nat.eqb (o_start o') 0 && Nat.eqb (cap o') (o_count o) && o_resizable o'
+      | Raise _ => false
+      end
   end.
